@@ -66,7 +66,8 @@ Inductive op :=
 | ORead (i : Z)       (* the consumer of subscriber i is told to receive one value *)
 | OReadAll (i : Z)    (* ... to receive everything from now on *)
 | OCancel (i : Z)     (* subscriber i's context ends *)
-| OClose              (* Close() *)
+| OClose              (* Close() — a script may call it more than once, also while an earlier call has not returned *)
+| OSubDead (p : bool) (* Subscribe with a context that has ALREADY ended *)
 | ONop.               (* nothing (a step the harness could not carry out: its subscriber's Subscribe had not returned) *)
 
 Inductive oev :=
@@ -93,18 +94,33 @@ Definition bcasts : list Z :=
 
 (* subscribers, in the order of the Subscribe calls: (step of the call, prompt consumer) *)
 Definition subscribers : list (Z * bool) :=
-  flat_map (fun e => match snd e with OSub p => [(fst e, p)] | _ => [] end) isc.
+  flat_map (fun e => match snd e with OSub p | OSubDead p => [(fst e, p)] | _ => [] end) isc.
 Definition isubs : list (Z * (Z * bool)) := zindex subscribers.
 
 Definition first_step (f : op -> bool) : option Z :=
   match find (fun e => f (snd e)) isc with Some e => Some (fst e) | None => None end.
 
+(* a subscriber whose context had already ended when it subscribed has left from the start *)
+Definition born_dead (i : Z) : option Z :=
+  match find (fun e => fst e =? i) isubs with
+  | Some e => match nth_error sc (Z.to_nat (fst (snd e))) with
+              | Some (OSubDead _) => Some (fst (snd e))
+              | _ => None
+              end
+  | None => None
+  end.
 Definition cancel_step (i : Z) : option Z :=
-  first_step (fun o => match o with OCancel j => j =? i | _ => false end).
+  match born_dead i with
+  | Some p => Some p
+  | None => first_step (fun o => match o with OCancel j => j =? i | _ => false end)
+  end.
 Definition readall_step (i : Z) : option Z :=
   first_step (fun o => match o with OReadAll j => j =? i | _ => false end).
+(* the FIRST Close call (from then on the broadcaster is closing) and all Close calls *)
 Definition close_step : option Z :=
   first_step (fun o => match o with OClose => true | _ => false end).
+Definition close_steps : list Z :=
+  flat_map (fun e => match snd e with OClose => [fst e] | _ => [] end) isc.
 
 Definition before (o : option Z) (r : Z) : bool :=   (* happened at a step <= r *)
   match o with Some x => x <=? r | None => false end.
@@ -123,7 +139,7 @@ Definition done_step (c : Z) : option Z :=
 
 Definition is_call (c : Z) : bool :=
   match nth_error sc (Z.to_nat c) with
-  | Some (OSub _) | Some OBcast | Some OClose => (0 <=? c)
+  | Some (OSub _) | Some (OSubDead _) | Some OBcast | Some OClose => (0 <=? c)
   | _ => false
   end.
 
@@ -235,19 +251,16 @@ Definition s_no_wedge : Prop :=
 
 (* ---------------------------------------------------------------------------------------- *)
 (* 5. "nothing is delivered after Close returns": nothing is received after the step at which
-      Close was seen to have returned. *)
+      ANY Close call was seen to have returned. *)
 
 Definition is_recv (e : oev) : bool := match e with ERecv _ _ => true | _ => false end.
 Definition o_after_close : bool :=
-  match close_step with
-  | None => true
-  | Some c => match done_step c with
-              | None => true
-              | Some d => forallb (fun e : Z * oev => negb (is_recv (snd e)) || (fst e <=? d)) ob
-              end
-  end.
+  forallb (fun c => match done_step c with
+                    | None => true
+                    | Some d => forallb (fun e : Z * oev => negb (is_recv (snd e)) || (fst e <=? d)) ob
+                    end) close_steps.
 Definition s_after_close : Prop :=
-  forall c d, close_step = Some c -> done_step c = Some d ->
+  forall c d, In c close_steps -> done_step c = Some d ->
   forall e, In e ob -> is_recv (snd e) = true -> fst e <= d.
 
 (* [w]: a candidate common order (computed by the harness; the oracle only CHECKS it) *)
@@ -318,11 +331,83 @@ End Conc.
 (* ======================================================================================== *)
 (* 4. rushed runs ("nothing is delivered after Close returns", under races).  Subscribe (of
       unbuffered channels nobody reads), Broadcast and Close are called back to back by one
-      goroutine, or all at once from several; only AFTER Close (and every other call) has
-      returned does a consumer start receiving from each channel.  Whatever such a consumer
-      receives was handed over after Close had returned.  [late] = per subscriber, what its
+      goroutine, or all at once from several, Close possibly several times; only AFTER some
+      Close call has returned (other calls may still be running) does a consumer start receiving
+      from each channel.  Whatever such a consumer receives was handed over after a Close had
+      returned.  [late] = per subscriber, what its
       consumer received (over all repetitions of the run). *)
 
 Definition is_nil (l : list Z) : bool := match l with [] => true | _ => false end.
 Definition rush_oracle (late : list (list Z)) : bool := forallb is_nil late.
 Definition rush_spec (late : list (list Z)) : Prop := forall l, In l late -> l = [].
+
+(* ======================================================================================== *)
+(* 5. concurrent runs in which Close is called meanwhile (once or several times, from separate
+      goroutines; [closes] = (start stamp, return stamp) of each Close call).  Once the
+      broadcaster is closing nobody is promised anything any more, so what remains is: at most
+      once, one common order respecting the calls' real-time order, and no value whose Broadcast
+      STARTED after some Close had RETURNED.  [seqs] = what each subscriber (staying, leaving,
+      joining late) received. *)
+
+Section ConcClose.
+Variable calls : list call.
+Variable seqs : list (list Z).
+Variable closes : list (Z * Z).
+
+Definition late_started (c : call) : bool := existsb (fun cl => snd cl <? c_start c) closes.
+
+Definition cc_oracle (w : list Z) : bool :=
+  nodupb (cvals calls) && nodupb w
+  && forallb (fun x => memZ x (cvals calls)) w
+  && forallb (fun s => subseqb s w) seqs
+  && forallb (fun a => forallb (fun b =>
+       if (c_end a <? c_start b) && memZ (c_val a) w && memZ (c_val b) w
+       then precedesb (c_val a) (c_val b) w else true) calls) calls
+  && forallb (fun s => forallb (fun c => if late_started c then negb (memZ (c_val c) s) else true)
+                               calls) seqs.
+
+Definition cc_ok (w : list Z) : Prop :=
+  NoDup (cvals calls) /\ NoDup w /\ (forall x, In x w -> In x (cvals calls)) /\
+  (forall s, In s seqs -> subseq s w) /\
+  (forall a b, In a calls -> In b calls -> c_end a < c_start b ->
+     In (c_val a) w -> In (c_val b) w -> precedesb (c_val a) (c_val b) w = true) /\
+  (forall s c, In s seqs -> In c calls -> late_started c = true -> ~ In (c_val c) s).
+Definition cc_spec : Prop := exists w, cc_ok w.
+
+End ConcClose.
+
+(* ======================================================================================== *)
+(* 6. one channel subscribed several times.  The same channel is passed to Subscribe [k] times
+      (in one call or in several): these are [k] subscriptions, so its consumer (reading
+      promptly) must see every value once PER subscription.  [nb] Broadcasts of the values
+      1..nb, one after the other; optionally the context of one of the [k] subscriptions ends
+      after [m] of them.  [shared] = what the consumer of the shared channel received, [other] =
+      what an ordinary subscriber received.  The r-th occurrences of the values in [shared]
+      (r = 0: first occurrences, ...) form the sequence of "the r-th fastest subscription". *)
+
+Fixpoint countz (x : Z) (l : list Z) : nat :=
+  match l with [] => O | y :: t => (if x =? y then 1 else 0) + countz x t end.
+Fixpoint ranked (seen l : list Z) : list (nat * Z) :=
+  match l with
+  | [] => []
+  | x :: t => (countz x seen, x) :: ranked (x :: seen) t
+  end.
+Definition rank_seq (r : nat) (l : list Z) : list Z :=
+  map snd (filter (fun p => Nat.eqb (fst p) r) (ranked [] l)).
+Definition zs (n : nat) : list Z := map Z.of_nat (seq 1 n).
+
+Definition dup_expected (k nb : nat) (leave : option nat) (r : nat) : list Z :=
+  if (S r <? k)%nat then zs nb
+  else if (S r =? k)%nat then match leave with Some m => zs m | None => zs nb end
+  else [].
+
+Definition dup_oracle (k nb : nat) (leave : option nat) (shared other : list Z) : bool :=
+  eqb_lz other (zs nb)
+  && forallb (fun r => eqb_lz (rank_seq r shared) (dup_expected k nb leave r)) (seq 0 (S k)).
+
+(* every subscription of the shared channel delivers every value exactly once, in order (the one
+   that leaves: the first m); nothing arrives more than k times; the ordinary subscriber is
+   unaffected *)
+Definition dup_spec (k nb : nat) (leave : option nat) (shared other : list Z) : Prop :=
+  other = zs nb /\
+  forall r, (r <= k)%nat -> rank_seq r shared = dup_expected k nb leave r.
